@@ -113,7 +113,8 @@ fn par_ranges(total: u64, f: &(dyn Fn(u64, u64) -> Result<u64, String> + Sync)) 
     let n = nthreads() as u64;
     let chunk = (total + n - 1) / n;
     let done = AtomicU64::new(0);
-    let err: Mutex<Option<String>> = Mutex::new(None);
+    // deterministic: the error of the lowest range wins
+    let err: Mutex<Option<(u64, String)>> = Mutex::new(None);
     std::thread::scope(|sc| {
         for t in 0..n {
             let (done, err) = (&done, &err);
@@ -129,8 +130,8 @@ fn par_ranges(total: u64, f: &(dyn Fn(u64, u64) -> Result<u64, String> + Sync)) 
                     }
                     Err(m) => {
                         let mut e = err.lock().unwrap();
-                        if e.is_none() {
-                            *e = Some(m);
+                        if e.as_ref().map_or(true, |x| t < x.0) {
+                            *e = Some((t, m));
                         }
                     }
                 }
@@ -138,7 +139,7 @@ fn par_ranges(total: u64, f: &(dyn Fn(u64, u64) -> Result<u64, String> + Sync)) 
         }
     });
     match err.into_inner().unwrap() {
-        Some(m) => Err(m),
+        Some((_, m)) => Err(m),
         None => Ok(done.load(Ordering::Relaxed)),
     }
 }
